@@ -65,7 +65,7 @@ def parse_v1(text):
 
 def check_case(ctx, case, c, mr):
     pub = {k: v for k, v in case.items() if not k.startswith("_")}
-    ctx.seen(pub, len(case["specs"]) > 0)
+    ctx.seen(tc.seen_key(pub), len(case["specs"]) > 0)
     st, txt = export(c)
     margin, r = mr
     mv = ser.canon(r)
@@ -147,9 +147,10 @@ def run(ctx):
             specs = specs[:pos] + [["bsr", rng.randrange(nq), gen.rand_axis(rng), 1.0, 0.0]] + specs[pos:]
             pre = []
         c = gen.build_circuit(nq, nb, specs)
-        if not tc.apply_pre(rng, c, pre):
+        applied = []
+        if not tc.apply_pre(rng, c, pre, applied):
             continue
-        cases.append({"nq": nq, "nb": nb, "specs": specs, "pre": pre})
+        cases.append({"nq": nq, "nb": nb, "specs": specs, "pre": pre, "pre_applied": applied})
         circuits.append(c)
     # anonymous gate at every position of a fixed circuit
     base = [["named", "H", [0]], ["named", "CNOT", [0, 1]], ["measure", 0, 0], ["comment", "c"], ["reset", 1]]
@@ -178,56 +179,71 @@ def run(ctx):
     # text the implementation exported (comments on one line only: the theorem's hypothesis)
     texts = []
     for case, c in zip(cases, circuits):
-        st, txt = export(c)
-        if st == "ok" and not any(type(s).__name__ == "Comment" and "\n" in s.str for s in c.ir.statements):
+        txt = reader_text(c)
+        if txt is not None:
             texts.append((case, txt))
     rres = model.call_many([["read1", t] for _, t in texts])
-
-    def unstr(v):
-        if isinstance(v, tuple) and len(v) == 2 and v[0] == "str":
-            return v[1]
-        if isinstance(v, list):
-            return [unstr(x) for x in v]
-        return v
     for (case, txt), (_, r) in zip(texts, rres):
-        rv = unstr(ser.canon(r))
-        try:
-            nq, lines = parse_v1(txt)
-        except Exception:  # noqa: BLE001
-            continue
-        if rv[0] != "some":
-            ctx.disagree("reader", {k: v for k, v in case.items()}, f"the verified reader refuses an exported text\n{txt}")
-            continue
-        rnq, rlines = rv[1]
-        good = int(rnq) == (nq or 0) and len(rlines) == len(lines)
-        if good:
-            for rl, ln in zip(rlines, lines):
-                if ln[0] == "comment" and len(ln) == 2:
-                    good = good and rl[0] == "comment" and rl[1] == ln[1]
-                else:
-                    name, qs, ps = ln
-                    good = good and rl[0] == "gate" and rl[1] == name and [int(q) for q in rl[3]] == qs and \
-                        [str(a[1]) for a in rl[2]] == ps
-                if not good:
-                    break
-        if not good:
-            ctx.disagree("reader", {k: v for k, v in case.items()}, f"the verified reader and the line oracle read the exported text differently\n{txt}\n{rv}")
+        check_reader(ctx, case, txt, r)
     ctx.suite("reader_vs_line_oracle", cases=len(texts))
     ctx.sample(cases[0])
     ctx.sample({"text": export(circuits[0])[1][:300]})
 
 
-def replay(ctx, payload):
-    import random
+def reader_text(c):
+    """the exported text when it is within the reader theorem's hypotheses, else None"""
+    st, txt = export(c)
+    if st == "ok" and not any(type(s).__name__ == "Comment" and "\n" in s.str for s in c.ir.statements):
+        return txt
+    return None
 
-    case = payload.get("case") or (payload.get("first_disagreement") or {}).get("case")
+
+def unstr(v):
+    if isinstance(v, tuple) and len(v) == 2 and v[0] == "str":
+        return v[1]
+    if isinstance(v, list):
+        return [unstr(x) for x in v]
+    return v
+
+
+def check_reader(ctx, case, txt, r):
+    rv = unstr(ser.canon(r))
+    try:
+        nq, lines = parse_v1(txt)
+    except Exception:  # noqa: BLE001
+        return
+    if rv[0] != "some":
+        ctx.disagree("reader", {k: v for k, v in case.items()}, f"the verified reader refuses an exported text\n{txt}")
+        return
+    rnq, rlines = rv[1]
+    good = int(rnq) == (nq or 0) and len(rlines) == len(lines)
+    if good:
+        for rl, ln in zip(rlines, lines):
+            if ln[0] == "comment" and len(ln) == 2:
+                good = good and rl[0] == "comment" and rl[1] == ln[1]
+            else:
+                name, qs, ps = ln
+                good = good and rl[0] == "gate" and rl[1] == name and [int(q) for q in rl[3]] == qs and \
+                    [str(a[1]) for a in rl[2]] == ps
+            if not good:
+                break
+    if not good:
+        ctx.disagree("reader", {k: v for k, v in case.items()}, f"the verified reader and the line oracle read the exported text differently\n{txt}\n{rv}")
+
+
+def replay(ctx, payload):
+    from harness import framework
+
+    suite, case = framework.replay_target(payload)
+    if case is None:
+        return framework.replay_nothing(payload)
     c = gen.build_circuit(case["nq"], case["nb"], case["specs"])
-    tc.apply_pre(random.Random(0), c, case.get("pre", []))
-    for h in case.get("history", []):
-        if h == "export":
-            export(c)
-        else:
-            implrun.apply_pass(c, list(h))
+    if not tc.replay_pre(c, case):
+        return {"fails": False, "note": "an earlier pass raised: the run skips such circuits (C01's concern)"}
+    tc.replay_history(c, case, export)
     mres = model.call_many([["export_v1", c.qubit_register_size, ser.ser_stmts(c.ir.statements)]])
     check_case(ctx, case, c, mres[0])
-    return {"export": export(c), "oracle_failures": ctx.oracle_failures, "fails": bool(ctx.oracle_failures)}
+    txt = reader_text(c)
+    if txt is not None:
+        check_reader(ctx, case, txt, model.call_many([["read1", txt]])[0][1])
+    return framework.replay_result(ctx, export=export(c))
